@@ -783,8 +783,10 @@ mod x86_64 {
         /// Unsafe because changing the APIC base address allows hijacking a page of physical memory space in ways that would violate Rust's memory rules.
         #[inline]
         pub unsafe fn write(frame: PhysFrame, flags: ApicBaseFlags) {
-            let (_, old_flags) = Self::read_raw();
-            let reserved = old_flags & !(ApicBaseFlags::all().bits());
+            let (old_frame, old_flags) = Self::read_raw();
+            // `old_flags` is the raw register value: drop the old base address as well
+            let reserved =
+                old_flags & !(ApicBaseFlags::all().bits() | old_frame.start_address().as_u64());
             let new_flags = reserved | flags.bits();
 
             unsafe {
